@@ -254,6 +254,11 @@ func (a *analysis) analyzeMembers(members []Ref, params []Param, setName string,
 			add(sub.prov[k], mi)
 		}
 	}
+	// wire stops here when an argument could not be processed (a malformed nested set) or
+	// when arguments / imported sets conflict: later stages report nothing
+	if len(si.problems) > 0 {
+		return si
+	}
 	for mi, m := range members {
 		if m.Item < 0 {
 			continue
@@ -360,6 +365,11 @@ func (a *analysis) set(id int) *setInfo {
 	}
 	a.sets[id] = nil
 	s := a.p.Sets[id]
+	if s.AliasOf > 0 {
+		si := a.set(s.AliasOf - 1)
+		a.sets[id] = si
+		return si
+	}
 	si := a.analyzeMembers(s.Members, nil, s.Name, "")
 	a.sets[id] = si
 	return si
@@ -553,7 +563,11 @@ func (a *analysis) closureItems(refs []Ref) []*Item {
 				}
 			} else if !seenS[m.Set] {
 				seenS[m.Set] = true
-				walk(a.p.Sets[m.Set].Members)
+				t := a.p.Sets[m.Set]
+				for t.AliasOf > 0 {
+					t = a.p.Sets[t.AliasOf-1]
+				}
+				walk(t.Members)
 			}
 		}
 	}
